@@ -364,6 +364,14 @@ def gen_cmdline(rng, info, spec_only=False, mem=False):
         k = rng.choice([1, 2, 2, 3])
         pick = sorted(rng.sample(normal, min(k, len(normal))))
         out = ("H", ".".join(type_spelling(rng, info, d, ty) for d, ty in pick), [d for d, _ in pick])
+        if rng.random() < 0.5:
+            # a small set: a few neighbouring PU numbers (below / between the strides of an interleaved numbering)
+            n = max(1, info.npus())
+            lo = rng.randrange(n)
+            v = 0
+            for b in range(lo, min(n, lo + rng.choice([1, 1, 2, 3]))):
+                v |= 1 << b
+            locs = [("loc", "", "set", "0x%x" % v)]
     post = []
     if out[0] == "set":
         r = rng.random()
